@@ -69,13 +69,16 @@ SITES = {
     'GetItem': ('arm', 'handle_parent', '{% set r = x[0] %}|END'),
     'Slice': ('arm', 'strict_only_inline', '{% set r = x[1:] %}|END'),
     'Emit': ('arm', 'strict_inline', '{{ x }}|END'),
+    # the same instruction where output is discarded (top level of a child template after `extends`): the print
+    # check must not depend on whether anything will be written
+    'EmitDiscarded': ('arm:Emit', 'strict_inline', '{% extends "base" %}{{ x }}'),
     'PushLoop': ('fn push_loop', 'iterable', '{% for a in x %}{% endfor %}|END'),
     # the re-entry of a recursive loop through loop(x) goes through the same function
     'PushLoopRecursion': ('fn push_loop', 'iterable', '{% for a in [1] recursive %}{{ loop(x) }}{% endfor %}|END'),
 }
 # constructs whose documented outcome for the non-undefined falsy kinds is an error for reasons unrelated to
 # undefined handling (e.g. `1 in none`) are compared on the undefined kinds only
-UNDEFINED_ONLY = {'In', 'GetAttr', 'GetItem', 'Slice', 'Lt', 'Lte', 'Gt', 'Gte', 'StringConcat', 'PushLoop', 'PushLoopRecursion', 'Eq', 'Ne'}
+UNDEFINED_ONLY = {'EmitDiscarded', 'In', 'GetAttr', 'GetItem', 'Slice', 'Lt', 'Lte', 'Gt', 'Gte', 'StringConcat', 'PushLoop', 'PushLoopRecursion', 'Eq', 'Ne'}
 
 
 def expand_macros(src, text):
@@ -110,11 +113,21 @@ def extract(repo):
     out = {}
     problems = []
     for site, (where, need, _tpl) in SITES.items():
-        if where == 'arm':
-            if site not in arms:
-                problems.append('no match arm for Instruction::%s in eval_impl' % site)
+        if where.startswith('arm'):
+            arm = where.split(':')[1] if ':' in where else site
+            if arm not in arms:
+                problems.append('no match arm for Instruction::%s in eval_impl' % arm)
                 continue
-            text = expand_macros(src, arms[site])
+            text = expand_macros(src, arms[arm])
+            if site == 'EmitDiscarded':
+                found = classify(text)
+                # an arm that asks whether output is being discarded (or leaves early) before its guard does not
+                # apply the guard on that path
+                k = text.find('strict_undefined')
+                early = re.search(r'is_discarding\s*\(|\bcontinue\b', text[:k if k >= 0 else len(text)])
+                eff = 'none' if (early or need not in found) else need
+                out[site] = dict(found=sorted(found), effective=eff, note='early exit before the guard' if early else '')
+                continue
         else:
             m = re.search(r'\bfn push_loop\s*\(', src)
             if not m:
@@ -205,7 +218,7 @@ def run_sites(prop, tier, seed, run_tool):
     hits, last, nq, dt = solve(extracted)
     confirmed = 0
     for site, mode, kind in hits:
-        req = dict(src=witness(site, kind), ctx=ctx_for(kind), undefined=MODES[mode])
+        req = dict(src=witness(site, kind), ctx=ctx_for(kind), undefined=MODES[mode], templates={'base': 'BASE'})
         o = run_tool('render', [req])[0]
         got_err = 'err' in o and 'UndefinedError' in o['err']
         other_err = ('err' in o and not got_err) or 'panic' in o
@@ -235,7 +248,7 @@ def run_sites(prop, tier, seed, run_tool):
             for kind in range(5):
                 if site in UNDEFINED_ONLY and kind not in (U, SU):
                     continue
-                reqs.append(dict(src=witness(site, kind), ctx=ctx_for(kind), undefined=MODES[mode]))
+                reqs.append(dict(src=witness(site, kind), ctx=ctx_for(kind), undefined=MODES[mode], templates={'base': 'BASE'}))
                 keys.append((site, mode, kind))
     outs = run_tool('render', reqs)
     hitset = set(hits)
